@@ -35,7 +35,7 @@ fn meta() -> Meta {
     Meta {
         id: "C18",
         level: "model_checking",
-        rule: "every word up to the depth bound over {W(5), W(80) (> buffer capacity 64), F, ExtRename, ExtRemove, Reopen, Reset(basename), Reset(directory), Reset(rotation toggled), R} x {Direct, BufferDontFlush(64), BufferAndFlush(64)} x {no rotation, Numbers, TimestampsDirect}; external rename/remove applies to the file currently written to and is only issued when that file exists; states = distinct model states (number of physical files, their record counts) reached, non-trivial = word contains an external rename/remove followed by a reopen, or a reset, with writes before and after",
+        rule: "every word up to the depth bound over {W(5), W(80) (> buffer capacity 64), F, ExtRename, ExtRemove, Reopen, Reset(basename), Reset(directory), Reset(rotation toggled), R, ExtRename of the additional file writer's file}; every write also sends one record to the additional file writer X x {Direct, BufferDontFlush(64), BufferAndFlush(64)} x {no rotation, Numbers, TimestampsDirect}; external rename/remove applies to the file currently written to and is only issued when that file exists; states = distinct model states (number of physical files, their record counts) reached, non-trivial = word contains an external rename/remove followed by a reopen, or a reset, with writes before and after",
         assumptions: vec![
             "size limit huge (rotation only when triggered), append on (a reset back to an earlier family continues it)".into(),
             "records the user destroyed with ExtRemove are exempt".into(),
@@ -54,9 +54,11 @@ enum Op {
     ResetDir,
     ResetRot,
     R,
+    /// externally rename the file of the additional file writer `X` (fan-out of reopen_output)
+    ExtRenameX,
 }
 fn alphabet() -> Vec<Op> {
-    vec![Op::W(5), Op::W(80), Op::F, Op::ExtRename, Op::ExtRemove, Op::Reopen, Op::ResetBase, Op::ResetDir, Op::ResetRot, Op::R]
+    vec![Op::W(5), Op::W(80), Op::F, Op::ExtRename, Op::ExtRemove, Op::Reopen, Op::ResetBase, Op::ResetDir, Op::ResetRot, Op::R, Op::ExtRenameX]
 }
 fn modes() -> Vec<ModeK> {
     vec![ModeK::Direct, ModeK::BufDont(64), ModeK::BufFlush(64, 3_600_000)]
@@ -172,7 +174,23 @@ fn run_word(mode: ModeK, rot: Option<NamingK>, word: &[Op]) -> Result<(Vec<usize
         rot,
     };
     let cfg0 = cfg_for(mode, &fam0);
-    let (logger, handle): (Box<dyn Log>, LoggerHandle) = cfg0.build_logger(&env.dir, &env.err).map_err(|e| Fail {
+    // an additional file writer X with its own file: reopen_output must reach it, too
+    let xdir = env.dir.join("xdir");
+    let xw = flexi_logger::writers::FileLogWriter::builder(flexi_logger::FileSpec::default().directory(&xdir).basename("x").suppress_timestamp())
+        .format(lg::payload_format)
+        .append()
+        .try_build()
+        .map_err(|e| Fail {
+            clause: "build-error",
+            at: 0,
+            detail: e.to_string(),
+        })?;
+    let xpath = xdir.join("x.log");
+    // model of X: physical files (path, lines); index of the one written to
+    let mut xfiles: Vec<(PathBuf, Vec<u8>)> = vec![(xpath.clone(), Vec::new())];
+    let mut xcur = 0usize;
+    let mut xside = 0;
+    let (logger, handle): (Box<dyn Log>, LoggerHandle) = cfg0.logger(&env.dir, &env.err).add_writer("X", Box::new(xw)).build().map_err(|e| Fail {
         clause: "build-error",
         at: 0,
         detail: e.to_string(),
@@ -215,6 +233,11 @@ fn run_word(mode: ModeK, rot: Option<NamingK>, word: &[Op]) -> Result<(Vec<usize
                 line.push(b'\n');
                 m.files[m.cur.unwrap()].lines.push(line);
                 lg::log_info(&*logger, &msg);
+                // and one record for X only
+                let xm = format!("x{seq}");
+                xfiles[xcur].1.extend(xm.as_bytes());
+                xfiles[xcur].1.push(b'\n');
+                lg::log_to(&*logger, log::Level::Info, "{X}", &xm);
                 if interesting.1 {
                     interesting.2 = true;
                 } else {
@@ -250,7 +273,24 @@ fn run_word(mode: ModeK, rot: Option<NamingK>, word: &[Op]) -> Result<(Vec<usize
                     m.files[cur].path = None;
                 }
             }
+            Op::ExtRenameX => {
+                if exists(&xpath) && xfiles[xcur].0 == xpath {
+                    xside += 1;
+                    let to = xdir.join(format!("moved_x{xside}.txt"));
+                    std::fs::rename(&xpath, &to).map_err(|e| Fail {
+                        clause: "machinery",
+                        at: i,
+                        detail: e.to_string(),
+                    })?;
+                    xfiles[xcur].0 = to;
+                }
+            }
             Op::Reopen => {
+                // the additional writer is re-opened, too: a new file at its path if it was moved
+                if xfiles[xcur].0 != xpath {
+                    xfiles.push((xpath.clone(), Vec::new()));
+                    xcur = xfiles.len() - 1;
+                }
                 let r = handle.reopen_output();
                 if let Err(e) = r {
                     return Err(Fail {
@@ -373,6 +413,9 @@ fn run_word(mode: ModeK, rot: Option<NamingK>, word: &[Op]) -> Result<(Vec<usize
     }
     // compare every physical file with the model; no unexpected files
     let mut expected: BTreeMap<PathBuf, Vec<u8>> = BTreeMap::new();
+    for (p, c) in &xfiles {
+        expected.entry(p.clone()).or_default().extend(c);
+    }
     for f in &m.files {
         if let Some(p) = &f.path {
             expected.entry(p.clone()).or_default().extend(f.lines.concat());
@@ -414,7 +457,7 @@ fn cause(mode: ModeK, rot: Option<NamingK>, word: &[Op], at: usize) -> String {
     let sw = word[..at.min(word.len())]
         .iter()
         .rev()
-        .find(|o| matches!(o, Op::Reopen | Op::ResetBase | Op::ResetDir | Op::ResetRot | Op::R | Op::ExtRename | Op::ExtRemove))
+        .find(|o| matches!(o, Op::Reopen | Op::ResetBase | Op::ResetDir | Op::ResetRot | Op::R | Op::ExtRename | Op::ExtRemove | Op::ExtRenameX))
         .map_or("-".to_string(), |o| format!("{o:?}"));
     format!("{sw}/{}/{}", super::c08::mode_class(mode), rot.map_or("no-rotation", |n| n.short()))
 }
